@@ -267,6 +267,47 @@ def run_cancel(item: Tuple[int, str, str, int]) -> Tuple[Optional[str], str]:
     return (problems[0] if problems else None), f"cancel:{'bad' if problems else 'ok'}"
 
 
+def trains() -> List[List[bytes]]:
+    """Truncated-query trains from one source in every order: a known-answer continuation (TC set or not, no question at
+    all) before / after / without the datagram that carries the questions."""
+    ka = [("PTR", TA, 1, 4500, S1.name)]
+    cont_tc = wire.query([], answers=ka, tc=True, id_=0x51)
+    cont_last = wire.query([], answers=ka, id_=0x52)
+    q_tc = wire.query([("Q", TA, 12, 1)], answers=[("PTR", TA, 1, 4500, "other._a._tcp.local.")], tc=True, id_=0x53)
+    q_plain = wire.query([("Q", TA, 12, 1)], id_=0x54)
+    q_two = wire.query([("Q", TA, 12, 1), ("Q", S1.name, 33, 1)], id_=0x55)
+    q_srv = wire.query([("Q", S1.name, 33, 1)], id_=0x56)
+    empty_tc = wire.query([], tc=True, id_=0x57)
+    out = []
+    for first in (cont_tc, empty_tc, cont_last):
+        for second in (q_plain, q_two, q_srv, q_tc, cont_tc, cont_last):
+            out.append([first, second])
+            out.append([second, first])
+            out.append([first, first, second])
+    out += [[cont_tc], [empty_tc], [cont_last], [q_tc, cont_tc, cont_last], [cont_tc, q_tc, cont_last]]
+    return out
+
+
+def run_train(item: Tuple[int, int, int]) -> Tuple[Optional[str], str]:
+    ti, si, gap = item
+    problems: List[str] = []
+    with World(rand=RandPolicy.const(0.0)) as w:
+        host, lst = busy_world(w)
+        w.advance(600)  # the deferred TC query of the busy world has been answered
+        for data in trains()[ti]:
+            deliver(w, host, data, SOURCES[si])
+            w.advance(gap)
+        w.advance(700)
+        excs = w.exceptions()
+        if excs:
+            problems.append(f"exception: {excs[0][:300]}")
+        canary(w, host, lst, problems)
+        excs2 = w.exceptions()
+        if len(excs2) > len(excs):
+            problems.append(f"exception: {excs2[-1][:300]}")
+    return (problems[0] if problems else None), f"train:{'bad' if problems else 'ok'}"
+
+
 def run_stream(item: Tuple[List[Tuple[str, bytes]], int]) -> Tuple[Optional[str], str]:
     """One busy world, a stream of datagrams with clock steps between them."""
     chunk, variant = item
@@ -333,6 +374,11 @@ def run(tier: str, seed: int) -> Tuple[Stats, str, List[str], Dict[str, Any]]:
         record(problem, oc, {"mode": "cancel", "item": list(item),
                              "what": f"{item[1]} waiter cancelled ({item[2]}, {item[3]} iterations apart) around valid datagram #{item[0]}"})
     sizes["cancels"] = len(cancels)
+    tr = [(ti, si, gap) for ti in range(len(trains())) for si in range(len(SOURCES)) for gap in (0, 50, 450)]
+    for item, (problem, oc) in zip(tr, pmap_iter(run_train, tr, chunk=8)):
+        record(problem, oc, {"mode": "train", "item": list(item),
+                             "what": f"truncated-query train #{item[0]} from {SOURCES[item[1]]}, {item[2]} ms apart"})
+    sizes["trains"] = len(tr)
     # all ordered pairs of one representative per (kind, decoder outcome class)
     reps: Dict[str, bytes] = {}
     for kind, d in corp:
@@ -364,6 +410,8 @@ def replay(data: Dict[str, Any]) -> int:
         problem, oc = run_one((data["kind"], data["data"], data["source"]))
     elif data.get("mode") == "cancel":
         problem, oc = run_cancel(tuple(data["item"]))
+    elif data.get("mode") == "train":
+        problem, oc = run_train(tuple(data["item"]))
     else:
         problem, oc = run_stream(([("x", d) for d in data["chunk"]], data.get("variant", 0)))
     if problem:
